@@ -345,6 +345,36 @@ def check_iso_property_types(ctx, tpl):
     ctx.add('isotherm_property_types', n, n)
 
 
+def check_population(ctx, tpl):
+    """A linear history beyond the retrieval batch size: N isotherms uploaded, all retrievable (with and without criteria)."""
+    from pygaps.core.baseisotherm import BaseIsotherm
+    from pygaps.parsing import sqlite as q
+    universe('fresh')
+    work = os.path.join(core.scratch(), 'population.db')
+    shutil.copyfile(tpl, work)
+    n = 230
+    ids = set()
+    for i in range(n):
+        iso = BaseIsotherm(material='matP' if i % 2 else 'matQ', adsorbate='gasP', temperature=200.0 + i, seq=float(i), **rs.UNITS)
+        o = core.call(q.isotherm_to_db, iso, db_path=work, verbose=False)
+        if not o.ok:
+            ctx.violate(core.make_violation({'check': 'population-upload', 'kind': o.kind}, f'upload number {i + 1} of distinct isotherms {o.brief()}', {'i': i}))
+            return
+        ids.add(iso.iso_id)
+    for crit, exp in ((None, n), ({'material': 'matP'}, n // 2), ({'adsorbate': 'gasP'}, n), ({'material': 'matQ', 'adsorbate': 'gasP'}, n - n // 2)):
+        universe('fresh')
+        o = core.call(q.isotherms_from_db, criteria=crit, db_path=work, verbose=False)
+        got = {i.iso_id for i in o.value} if o.ok else set()
+        if not o.ok or len(o.value) != exp or not got <= ids:
+            ctx.violate(core.make_violation({'check': 'population-retrieval', 'criteria': sorted(crit) if crit else None},
+                                            f'{n} isotherms uploaded; isotherms_from_db(criteria={crit}) returned {len(o.value) if o.ok else o.brief()} instead of {exp}',
+                                            {'uploaded': n, 'criteria': crit}, exp, len(o.value) if o.ok else o.brief()))
+    raw = rs.read_raw(work)
+    if len(raw['isos']) != n or raw['orphans'] or raw['dangling']:
+        ctx.violate(core.make_violation({'check': 'population-tables'}, f'raw tables hold {len(raw["isos"])} isotherms, orphans {raw["orphans"][:2]}', {}))
+    ctx.add('population', n + 4, n + 4)
+
+
 def run(ctx):
     import pygaps
     base_registries()
@@ -357,6 +387,7 @@ def run(ctx):
     res = engine_states.explore([init], expand_factory(d, modes), canon, max_depth=md)
     ctx.violate(res.violations)
     check_iso_property_types(ctx, tpl)
+    check_population(ctx, tpl)
     ctx.cov.update(states=res.states, transitions=res.transitions, traces_validated_against_impl=res.transitions,
                    max_depth=res.max_depth, level_sizes=res.level_sizes,
                    outcomes={f'{a}:{b}': n for (a, b), n in sorted(res.outcomes.items())},
